@@ -72,6 +72,35 @@ C["C08"] = dict(assumptions=["peer replaced by a recorder"], harnesses=[
     H("ZZDecodePeersCompact", "internal/tracker", "compact peers from PEX/trackers: any bytes (len <= 19): error or well-formed", T(30, 600), T(30, 600)),
 ])
 
+C["C07"] = dict(assumptions=["bencode decoder replaced by 'any decoded value'", "name and path component bytes are arbitrary ASCII (<0x80) of the stated lengths; invalid UTF-8 / 255-byte trimming not covered", "os.MkdirAll / os.OpenFile replaced by recorders (every path the storage would touch is captured)", "tar parser replaced by 'one header with an arbitrary name'"], harnesses=[
+    H("ZZPathsName", "internal/storage/filestorage", "real NewInfo + FileStorage.Open: arbitrary torrent name (<= 2 ASCII bytes), single-file or one file with a <=1-byte component: every path handed to MkdirAll/OpenFile stays under the data directory", T(80, 900), T(80, 900)),
+    H("ZZPathsComponents", "internal/storage/filestorage", "fixed name, <=2 files with one component of <=2 arbitrary ASCII bytes: confinement, separator replacement, two files never collide", T(80, 900), T(80, 900)),
+    H("ZZTarConfined", "torrent", "readData: arbitrary tar entry name (<=5 ASCII bytes): nothing created outside the destination directory", T(80, 900), T(80, 900)),
+    H("ZZPathsConfined2", "internal/storage/filestorage", "name <= 2 bytes, <=2 files x <=2 components x <=2 bytes", None, T(120, 7000, 32, 8)),
+])
+C["C05"] = dict(assumptions=["os.OpenFile replaced by a recorder"], harnesses=[
+    H("ZZOpenSync", "internal/storage/filestorage", "every open of a data file carries O_SYNC|O_RDWR (existing-file path and create path)", T(20, 300), T(20, 300)),
+])
+
+C["C11"] = dict(assumptions=["net.Conn replaced by an in-memory connection (vrt.Conn)", "time.Ticker never fires (keep-alive timing outside the claim)", "extension messages (bencoded payload) not covered"], harnesses=[
+    H("ZZWriterFrames", "internal/peerconn/peerwriter", "real PeerWriter.Run + messageWriter goroutines: each of 15 fixed-layout message kinds with symbolic fields is written as <len BE32><id><body> per BEP 3/5/6, in one Write", T(45, 600), T(45, 600)),
+    H("ZZWriterPiece", "internal/peerconn/peerwriter", "piece message = header + exactly bytes [begin,begin+length) (length 1..16384 symbolic) and upload counter == payload bytes", T(45, 600), T(45, 600)),
+    H("ZZRoundTrip", "internal/peerconn/peerwriter", "writer output fed to the real PeerReader.Run under none/one arbitrary split/byte-by-byte fragmentation decodes to the identical message", T(80, 900), T(80, 900)),
+    H("ZZHandshakeLayout", "internal/btconn", "handshake = 0x13 'BitTorrent protocol' + 8 reserved + info-hash + peer id (all symbolic), reads back under fragmentation", T(80, 600), T(80, 600)),
+    H("ZZHandshakeRejectsOtherProtocol", "internal/btconn", "any other first 20 bytes are refused", T(40, 300), T(40, 300)),
+])
+C["C08"]["harnesses"] += [
+    H("ZZReaderTwo", "internal/peerconn/peerreader", "real PeerReader.Run on any unfragmented byte stream <= 11 bytes, any maxMsgSize: no panic, allocation <= max(maxMsgSize,16K), caps on request/piece/bitfield, up to 2 deliveries", T(80, 900), T(80, 900)),
+    H("ZZReaderOne", "internal/peerconn/peerreader", "any unfragmented stream <= 17 bytes (covers a full request frame), first delivery", T(80, 1800, 8, 6), None),
+    H("ZZReaderFirst", "internal/peerconn/peerreader", "any stream <= 18 bytes with none/one split/byte-by-byte fragmentation, first delivery", None, T(80, 3600, 32, 8)),
+]
+C["C08"]["assumptions"] += ["net.Conn replaced by an in-memory connection serving an arbitrary byte stream", "extension payload decoding (bencode, reflection) replaced by 'decodes or fails'"]
+
+C["C04"] = dict(assumptions=["torrent built by the real newTorrent; its event loop is not started: the harness calls the handlers the loop would call, one event at a time (single-threaded event loop)", "workers started with `go` are not run; their completions are symbolic events (allocation/verification results arbitrary); ghost workers honour Close()", "resume database, acceptor, external IP lookup replaced by recorders", "wall-clock clauses (stop within tracker timeout) outside the claim"], harnesses=[
+    H("ZZLifecycle4", "torrent", "every sequence of 4 lifecycle events (start, stop, verify, stop-announce done, allocation done, verification done with arbitrary results) from a freshly added 2-piece torrent with arbitrary resume bitfield: no panic/crash, status truthful (Seeding => all pieces; Stopped/Stopping => no peers, downloads, open files), completion flag == completion channel, no command dropped, verification never leaves the torrent transferring", T(30, 900, flags=["-nospawn"]), None),
+    H("ZZLifecycle6", "torrent", "same with 6 events", None, T(30, 3000, 16, 7, flags=["-nospawn"])),
+])
+
 for pid, spec in C.items():
     spec = dict(property=pid, **spec)
     json.dump(spec, open(os.path.join(D, pid + ".json"), "w"), indent=1)
